@@ -112,6 +112,7 @@ class Ctx:
         self.forks = []          # alternative prefixes discovered
         self.pc = []             # z3 path condition
         self.side = []           # side constraints of atoms (definitions of mod/round/sqrt2/trig/pi)
+        self._numeric_defs = set()   # indices in self.side of definitions that point_feasible() replaces by numeric values (cos^2+sin^2 == 1, pi*invpi == 1)
         self._z3vars = {}
         self._sqrt2 = None
         self.obligations = []
@@ -190,6 +191,7 @@ class Ctx:
         elif v.kind == "invpi":
             z = z3.Real("invpi")
             self._z3vars[v.id] = z
+            self._numeric_defs.add(len(self.side))
             self.side.append(z * self.z3var(PI_VAR) == 1)
             return z
         elif v.kind in ("cos", "sin"):
@@ -197,6 +199,7 @@ class Ctx:
             self._z3vars[v.id] = z
             p = self.z3var(v.partner)
             if v.kind == "cos":
+                self._numeric_defs.add(len(self.side))
                 self.side.append(z * z + p * p == 1)
             return z
         else:
@@ -402,6 +405,42 @@ class Ctx:
             v = model.eval(z, model_completion=True)
             out[name] = _z3num(v)
         return out
+
+    def point_feasible(self, vals):
+        """does the path condition hold at these input values?  Inputs, pi, 1/pi and the trig atoms of the angle inputs are replaced by (rational images of) their
+        floating-point values - so a path like |sin(c)| <= 1e-10 is recognised as taken at c = pi -; auxiliary atoms (mod / round / abs / sqrt) stay constrained
+        by their definitions and are left to the solver.  Used only to select witnesses; every witness is replayed natively afterwards."""
+        import math
+        from . import ring
+        subs = []
+        for name, p in self.inputs.items():
+            if not isinstance(p, Poly) or name not in vals or not isinstance(vals[name], (int, float)):
+                continue
+            vs = p.vars()
+            if len(vs) != 1:
+                continue
+            var = vs[0]
+            x = vals[name]
+            z = self.z3var(var)
+            subs.append((z, z3.IntVal(int(x)) if z3.is_int(z) else _rv(Fraction(x))))
+            trig = ring._TRIG.get(var.id)
+            if trig:
+                c, sn, D = trig
+                for tv, val in ((c, math.cos(x / D)), (sn, math.sin(x / D))):
+                    if tv.id in self._z3vars:
+                        subs.append((self._z3vars[tv.id], _rv(Fraction(val))))
+        if ring.PI_VAR.id in self._z3vars:
+            subs.append((self._z3vars[ring.PI_VAR.id], _rv(Fraction(math.pi))))
+        if ring.INVPI_VAR.id in self._z3vars:
+            subs.append((self._z3vars[ring.INVPI_VAR.id], _rv(Fraction(1 / math.pi))))
+        s = z3.Solver()
+        s.set("timeout", 3000)
+        for k, c in enumerate(self.side):
+            if k not in self._numeric_defs:
+                s.add(z3.substitute(c, *subs) if subs else c)
+        for c in self.pc:
+            s.add(z3.substitute(c, *subs) if subs else c)
+        return s.check() == z3.sat
 
     # ------------------------------------------------------------------ models of non-polynomial operations
     def model_mod(self, a: Poly, m: Poly, qmax=8):
